@@ -488,9 +488,20 @@ def main_check(argv):
     budget = getattr(P, "BUDGET_SCALE", {}).get(a.tier, 1.0) * budget
     max_index = a.runs if a.runs is not None else 10**12
     t0 = time.monotonic()
+    aggs = []
+    batches = getattr(P, "BATCHES", None) or [{"share": 1.0}]
+    batch_info = []
     try:
-        aggs = run_batch(pid, tier=a.tier, budget_s=budget, max_index=max_index,
-                         jobs=a.j, base=base)
+        for b in batches:
+            bt = a.tier + b.get("tier_suffix", "")
+            got = run_batch(pid, tier=bt, budget_s=budget * b["share"],
+                            max_index=max_index if a.runs is None else max(
+                                16, int(a.runs * b["share"])),
+                            jobs=a.j, base=base,
+                            extra={"pyflags": b.get("pyflags", [])})
+            aggs += got
+            batch_info.append({"tier": bt, "pyflags": b.get("pyflags", []),
+                               "runs": sum(g["runs"] for g in got)})
     except HarnessError as e:
         print(f"HARNESS-ERROR property={pid} {e}")
         return 2
@@ -498,7 +509,19 @@ def main_check(argv):
     tot = merge_aggs(aggs)
     zero = []
     if not a.no_evidence:
-        zero = write_evidence(pid, P, a.tier, base, tot, wall)
+        extra_cov = {"batches": batch_info}
+        if a.tier == "thorough":
+            # determinism self-test rides along in the thorough tier
+            a.runs = 96
+            st = selftest(pid, a, quiet=True)
+            extra_cov["determinism_selftest"] = (
+                "96 run seeds x 3 batches (j=16, j=4, j=16): "
+                + ("all digests equal" if st == 0 else "FAILED"))
+            if st != 0:
+                print(f"HARNESS-ERROR property={pid} determinism self-test failed")
+                return 2
+            wall = time.monotonic() - t0
+        zero = write_evidence(pid, P, a.tier, base, tot, wall, extra_cov)
     print(f"runs={tot['runs']} steps={tot['steps']} wall={wall:.1f}s "
           f"distinct_nontrivial={len(tot['nontrivial'])} faults={tot['faults']}")
     print(f"probes={tot['probes']}")
@@ -573,7 +596,7 @@ def replay_child():
     sys.stdout.write(json.dumps(res) + "\n")
 
 
-def selftest(pid, a):
+def selftest(pid, a, quiet=False):
     """Determinism: the same run indices at -j1-equivalent and -j16, twice, must give
     identical per-run digests.  (Run from a fresh driver process each time.)"""
     n = a.runs or 160
@@ -588,8 +611,9 @@ def selftest(pid, a):
             print("HARNESS-ERROR in selftest", tot["harness_errors"][:2])
             return 2
     ok = res[0] == res[1] == res[2] and len(res[0]) == n
-    print(f"determinism: {n} run seeds x 3 batches (j=16, j=4, j=16): "
-          + ("all digests equal" if ok else "DIGESTS DIFFER"))
+    if not quiet or not ok:
+        print(f"determinism: {n} run seeds x 3 batches (j=16, j=4, j=16): "
+              + ("all digests equal" if ok else "DIGESTS DIFFER"))
     if not ok:
         for k in res[0]:
             if not (res[0][k] == res[1].get(k) == res[2].get(k)):
